@@ -115,32 +115,17 @@ where
     }
 }
 
-/// Properties that hold for every PURL the library hands out, whatever produced it:
-/// C01 (fixpoint, when T can be parsed), C10 (rebuild), C04 (collection coherence),
-/// C19 (reflexive laws).  `known` lists values on which TLC has evaluated the
-/// value-level invariants (Valid, structure, Render); any other value is written as
-/// an event for trace validation.
-pub fn universal<T: Inst>(ctx: &mut Ctx, inst: &str, p: &GenericPurl<T>, obs: &Value, known: &[&Value], origin: &str)
+/// Properties that hold for every PURL the library hands out, whatever produced it and
+/// whatever the type parameter: C10 (rebuild), C04 (collection coherence).  `known` lists
+/// values on which TLC has evaluated the value-level invariants (Valid, structure, Render);
+/// any other value is written as an event for trace validation.
+pub fn universal_noparse<T>(ctx: &mut Ctx, inst: &str, p: &GenericPurl<T>, obs: &Value, known: &[&Value], origin: &str)
 where
-    <T as PurlShape>::Error: ErrName + From<<T as FromStr>::Err>,
+    T: PurlShape + Clone + PartialEq + Eq + Hash + Ord,
+    <T as PurlShape>::Error: ErrName,
 {
     let null = Value::Null;
-    // C01: canonical string is accepted, parses to an equal PURL, prints identically.
-    if let Some(c) = display(p) {
-        let (o2, p2) = parse_outcome::<T>(&c);
-        match p2 {
-            None => {
-                ctx.check("C01", "canonical string is accepted", inst, false, obs, &o2);
-            },
-            Some(p2) => {
-                ctx.check("C01", "reparse equals", inst, &p2 == p, obs, &o2);
-                let c2 = display(&p2);
-                ctx.check("C01", "reformat identical", inst, c2.as_deref() == Some(&*c), &obs["str"], &o2["str"]);
-                ctx.check("C19", "equal values hash alike", inst, hash_of(&p2) == hash_of(p), &null, &null);
-                ctx.check("C19", "equal values compare Equal", inst, p2.cmp(p) == std::cmp::Ordering::Equal, &null, &null);
-            },
-        }
-    } else {
+    if display(p).is_none() {
         ctx.check("C06", "Display panicked", inst, false, &null, obs);
     }
     // C10: rebuild is the identity.
@@ -154,13 +139,52 @@ where
     // accessors never report an empty string
     let acc_ok = p.namespace() != Some("") && p.version() != Some("") && p.subpath() != Some("");
     ctx.check("C04", "optional accessors never Some(\"\")", inst, acc_ok, &null, obs);
+    // C19 reflexive laws on a clone
+    let q = p.clone();
+    ctx.check("C19", "clone is equal, hashes alike, compares Equal", inst,
+              &q == p && hash_of(&q) == hash_of(p) && q.cmp(p) == std::cmp::Ordering::Equal, &null, &null);
     // value-level invariants: evaluated by TLC, either already (known) or on the event
     if !known.iter().any(|k| **k == obs["v"]) {
-        ctx.event(json!({"ev": "value", "inst": inst, "origin": origin, "generic": inst != "Test", "v": obs["v"], "str": obs["str"]}));
+        ctx.event(json!({"ev": "value", "inst": inst, "origin": origin, "generic": !inst.starts_with("Test"), "v": obs["v"], "str": obs["str"]}));
         ctx.count("values_to_trace");
     } else {
         ctx.count("values_known_to_tlc");
     }
+}
+
+/// universal_noparse plus C01 (fixpoint) for type parameters that can be parsed.
+pub fn universal<T: Inst>(ctx: &mut Ctx, inst: &str, p: &GenericPurl<T>, obs: &Value, known: &[&Value], origin: &str)
+where
+    <T as PurlShape>::Error: ErrName + From<<T as FromStr>::Err>,
+{
+    let null = Value::Null;
+    // C01: for a value obtained from the parser, its canonical string is accepted, parses to an
+    // equal PURL, and prints identically.  For a built value the statement applies to whatever
+    // its printed form parses to (C09 decides whether that is the built value itself).
+    if let Some(c) = display(p) {
+        let (o2, p2) = parse_outcome::<T>(&c);
+        match p2 {
+            None => {
+                if origin == "parse" {
+                    ctx.check("C01", "canonical string is accepted", inst, false, obs, &o2);
+                }
+            },
+            Some(p2) => {
+                if origin == "parse" {
+                    ctx.check("C01", "reparse equals", inst, &p2 == p, obs, &o2);
+                    let c2 = display(&p2);
+                    ctx.check("C01", "reformat identical", inst, c2.as_deref() == Some(&*c), &obs["str"], &o2["str"]);
+                    ctx.check("C19", "equal values hash alike", inst, hash_of(&p2) == hash_of(p), &null, &null);
+                    ctx.check("C19", "equal values compare Equal", inst, p2.cmp(p) == std::cmp::Ordering::Equal, &null, &null);
+                } else if let Some(c2) = display(&p2) {
+                    let (o3, p3) = parse_outcome::<T>(&c2);
+                    let fix = p3.as_ref() == Some(&p2) && p3.as_ref().and_then(display).as_deref() == Some(&*c2);
+                    ctx.check("C01", "printed form of a built value re-parses to a fixpoint", inst, fix, &o2, &o3);
+                }
+            },
+        }
+    }
+    universal_noparse(ctx, inst, p, obs, known, origin);
 }
 
 /// Verdict of the specification against an observed outcome.
@@ -281,6 +305,315 @@ pub fn run_parse(ctx: &mut Ctx, case: &Value, opts: &Opts) {
     }
 }
 
+// --------------------------------------------------------------------------- build cases
+
+/// Construct a builder through the public setters from the spec's [st, parts].
+fn make_builder<T>(t: T, parts: &Value) -> Result<GenericPurlBuilder<T>, purl::ParseError> {
+    let mut b = GenericPurlBuilder::new(t, from_cps(&parts["name"]));
+    b = b.with_namespace(from_cps(&parts["ns"]));
+    b = b.with_version(from_cps(&parts["ver"]));
+    b = b.with_subpath(from_cps(&parts["sub"]));
+    if let Some(qs) = parts["quals"].as_array() {
+        for q in qs {
+            b = b.with_qualifier(from_cps(&q[0]), from_cps(&q[1]))?;
+        }
+    }
+    Ok(b)
+}
+
+fn build_inst<T>(ctx: &mut Ctx, inst: &str, t: T, case: &Value) -> (Value, Option<GenericPurl<T>>)
+where
+    T: PurlShape + Clone + PartialEq + Eq + Hash + Ord,
+    <T as PurlShape>::Error: ErrName + From<purl::ParseError>,
+{
+    let parts = &case["parts"];
+    let r = catch_unwind(AssertUnwindSafe(|| -> Result<GenericPurl<T>, <T as PurlShape>::Error> {
+        let b = make_builder(t, parts)?;
+        b.build()
+    }));
+    let (obs, p) = match r {
+        Err(_) => (json!({"panic": true}), None),
+        Ok(Err(e)) => (json!({"ok": false, "err": e.err_name()}), None),
+        Ok(Ok(p)) => (outcome::<T, <T as PurlShape>::Error>(Ok(Ok(p.clone()))), Some(p)),
+    };
+    let exp = &case["out"];
+    ctx.check("C06", "no panic", inst, obs.get("panic").is_none() && obs["str"].get("panic").is_none(), &json!("value or error"), &obs);
+    if exp["ok"] == json!(true) {
+        if ctx.check("C09", "build succeeds when name, type, type rule, keys and checksum are fine", inst, obs["ok"] == json!(true), exp, &obs) {
+            let okv = ctx.check("C09", "accessors return what was set (normalised)", inst, obs["v"] == exp["v"], exp, &obs);
+            if inst == "Purl" {
+                ctx.check("C08", "builder applies the type's name rule", inst, obs["v"]["name"] == exp["v"]["name"], exp, &obs);
+            }
+            if okv {
+                ctx.check("C03", "canonical string", inst, obs["str"] == exp["str"], exp, &obs);
+            }
+        }
+    } else {
+        ctx.check("C09", "build is refused", inst, obs["ok"] == json!(false), exp, &obs);
+        if case["jerr"] == json!(true) {
+            ctx.check("C08", "refused with the demanded error", inst, &obs == exp, exp, &obs);
+        } else if &obs != exp {
+            ctx.count("drift");
+        }
+    }
+    (obs, p)
+}
+
+/// C09: the printed form is accepted by the parser and yields the same fields.
+fn parse_back<T: Inst>(ctx: &mut Ctx, inst: &str, obs: &Value, case: &Value)
+where
+    <T as PurlShape>::Error: ErrName + From<<T as FromStr>::Err>,
+{
+    if obs["ok"] != json!(true) || !obs["str"].is_array() {
+        return;
+    }
+    let c = from_cps(&obs["str"]);
+    let (o2, _) = parse_outcome::<T>(&c);
+    let want = &case["rt"];
+    ctx.check("C09", "string form parses back to the same fields", inst, o2["ok"] == json!(true) && &o2["v"] == want, want, &o2);
+}
+
+pub fn run_build(ctx: &mut Ctx, case: &Value) {
+    let st = from_cps(&case["st"]);
+    let exp_v = &case["out"]["v"];
+    if case["sh"] == json!("generic") {
+        let (g, p) = build_inst::<String>(ctx, "String", st.clone(), case);
+        if let Some(p) = &p {
+            universal(ctx, "String", p, &g, &[exp_v], "build");
+        }
+        parse_back::<String>(ctx, "String", &g, case);
+        {
+            let (o, p) = build_inst::<std::borrow::Cow<str>>(ctx, "CowBorrowed", std::borrow::Cow::Borrowed(&st), case);
+            if let Some(p) = &p {
+                universal_noparse(ctx, "CowBorrowed", p, &o, &[exp_v], "build");
+            }
+            ctx.check_eq("C13", "String and Cow::Borrowed build alike", "CowBorrowed", &g, &o);
+            let (o, p) = build_inst::<std::borrow::Cow<str>>(ctx, "CowOwned", std::borrow::Cow::Owned(st.clone()), case);
+            if let Some(p) = &p {
+                universal_noparse(ctx, "CowOwned", p, &o, &[exp_v], "build");
+            }
+            ctx.check_eq("C13", "String and Cow::Owned build alike", "CowOwned", &g, &o);
+        }
+        #[cfg(feature = "ss")]
+        {
+            let (o, p) = build_inst::<purl::SmallString>(ctx, "SmallString", purl::SmallString::from(st.as_str()), case);
+            if let Some(p) = &p {
+                universal(ctx, "SmallString", p, &o, &[exp_v], "build");
+            }
+            ctx.check_eq("C13", "String and SmallString build alike", "SmallString", &g, &o);
+        }
+        if ctx.samples.len() < 3 {
+            ctx.samples.push(json!({"kind": "build", "type": st, "parts": case["parts"], "observed": g}));
+        }
+    } else {
+        #[cfg(feature = "pt")]
+        {
+            let Ok(t) = <purl::PackageType as FromStr>::from_str(&st) else {
+                eprintln!("typed build case with unknown type {:?}", st);
+                std::process::exit(2);
+            };
+            let (o, p) = build_inst::<purl::PackageType>(ctx, "Purl", t, case);
+            if let Some(p) = &p {
+                universal(ctx, "Purl", p, &o, &[exp_v], "build");
+            }
+            parse_back::<purl::PackageType>(ctx, "Purl", &o, case);
+            if ctx.samples.len() < 3 {
+                ctx.samples.push(json!({"kind": "build", "type": st, "parts": case["parts"], "observed": o}));
+            }
+        }
+    }
+}
+
+// --------------------------------------------------------------------------- builder transitions and sequences
+
+fn quals_from(v: &Value) -> purl::Qualifiers {
+    let pairs: Vec<(String, String)> =
+        v.as_array().map(|a| a.iter().map(|q| (from_cps(&q[0]), from_cps(&q[1]))).collect()).unwrap_or_default();
+    purl::Qualifiers::try_from_iter(pairs).expect("spec builder states hold valid distinct keys")
+}
+
+/// Builder in the abstract state [st, parts], constructed through the public fields.
+fn builder_in_state<T>(t: T, parts: &Value) -> GenericPurlBuilder<T> {
+    let mut b = GenericPurlBuilder::new(t, from_cps(&parts["name"]));
+    b.parts.namespace = from_cps(&parts["ns"]).into();
+    b.parts.version = from_cps(&parts["ver"]).into();
+    b.parts.subpath = from_cps(&parts["sub"]).into();
+    b.parts.qualifiers = quals_from(&parts["quals"]);
+    b
+}
+
+fn parts_json(p: &purl::PurlParts) -> Value {
+    json!({"ns": cps(&p.namespace), "name": cps(&p.name), "ver": cps(&p.version),
+           "quals": quals_json(&p.qualifiers), "sub": cps(&p.subpath)})
+}
+
+/// Type parameters whose value can be made from / shown as the spec's `st` string.
+pub trait StShape: PurlShape + Sized {
+    fn from_st(s: &str) -> Option<Self>;
+    fn st(&self) -> String;
+}
+impl StShape for String {
+    fn from_st(s: &str) -> Option<Self> {
+        Some(s.to_owned())
+    }
+    fn st(&self) -> String {
+        self.clone()
+    }
+}
+impl StShape for std::borrow::Cow<'static, str> {
+    fn from_st(s: &str) -> Option<Self> {
+        Some(std::borrow::Cow::Owned(s.to_owned()))
+    }
+    fn st(&self) -> String {
+        self.to_string()
+    }
+}
+#[cfg(feature = "ss")]
+impl StShape for purl::SmallString {
+    fn from_st(s: &str) -> Option<Self> {
+        Some(purl::SmallString::from(s))
+    }
+    fn st(&self) -> String {
+        self.to_string()
+    }
+}
+#[cfg(feature = "pt")]
+impl StShape for purl::PackageType {
+    fn from_st(s: &str) -> Option<Self> {
+        <purl::PackageType as FromStr>::from_str(s).ok()
+    }
+    fn st(&self) -> String {
+        self.name().to_owned()
+    }
+}
+
+fn builder_json<T: StShape>(b: &GenericPurlBuilder<T>) -> Value {
+    json!({"st": cps(&b.package_type.st()), "parts": parts_json(&b.parts)})
+}
+
+/// Apply one op (a tuple <<name, args..>> of the spec) through the public builder method.
+fn apply_op<T: StShape>(b: GenericPurlBuilder<T>, op: &Value) -> Result<GenericPurlBuilder<T>, purl::ParseError> {
+    use purl::qualifiers::well_known::{Checksum, RepositoryUrl};
+    let name = op[0].as_str().unwrap_or("");
+    let a1 = if name == "try_with_typed_checksum" { String::new() } else { from_cps(&op[1]) };
+    Ok(match name {
+        "with_package_type" => b.with_package_type(T::from_st(&a1).expect("type of the universe")),
+        "with_namespace" => b.with_namespace(a1),
+        "without_namespace" => b.without_namespace(),
+        "with_name" => b.with_name(a1),
+        "with_version" => b.with_version(a1),
+        "without_version" => b.without_version(),
+        "with_subpath" => b.with_subpath(a1),
+        "without_subpath" => b.without_subpath(),
+        "with_qualifier" => b.with_qualifier(a1, from_cps(&op[2]))?,
+        "without_qualifier" => b.without_qualifier(a1),
+        "without_qualifiers" => b.without_qualifiers(),
+        "with_typed_repo" => b.with_typed_qualifier(Some(RepositoryUrl::from(a1.as_str()))),
+        "without_typed_repo" => b.with_typed_qualifier(None::<RepositoryUrl>),
+        "try_with_typed_checksum" => {
+            let mut ck = Checksum::default();
+            if let Some(es) = op[1].as_array() {
+                for e in es {
+                    ck.insert_raw(&from_cps(&e[0]), from_cps(&e[1]));
+                }
+            }
+            b.try_with_typed_qualifier(Some(ck))?
+        },
+        "without_typed_checksum" => b.try_with_typed_qualifier(None::<Checksum>)?,
+        other => {
+            eprintln!("unknown builder op {:?}", other);
+            std::process::exit(2);
+        },
+    })
+}
+
+fn bop_inst<T: StShape + Clone>(ctx: &mut Ctx, inst: &str, case: &Value) {
+    let pre = &case["pre"];
+    let Some(t) = T::from_st(&from_cps(&pre["st"])) else { return };
+    let r = catch_unwind(AssertUnwindSafe(|| {
+        let b = builder_in_state(t, &pre["parts"]);
+        apply_op(b, &case["op"])
+    }));
+    let obs = match r {
+        Err(_) => json!({"panic": true}),
+        Ok(Err(e)) => json!({"ok": false, "err": e.err_name()}),
+        Ok(Ok(b)) => json!({"ok": true, "b": builder_json(&b)}),
+    };
+    ctx.check("C06", "no panic", inst, obs.get("panic").is_none(), &json!("builder or error"), &obs);
+    ctx.check("C09", "setter changes exactly its own field", inst, obs == case["post"], &case["post"], &obs);
+}
+
+pub fn run_bop(ctx: &mut Ctx, case: &Value) {
+    if case["sh"] == json!("generic") {
+        bop_inst::<String>(ctx, "String", case);
+        bop_inst::<std::borrow::Cow<'static, str>>(ctx, "CowOwned", case);
+        #[cfg(feature = "ss")]
+        bop_inst::<purl::SmallString>(ctx, "SmallString", case);
+    } else {
+        #[cfg(feature = "pt")]
+        bop_inst::<purl::PackageType>(ctx, "Purl", case);
+    }
+    if ctx.samples.len() < 2 {
+        ctx.samples.push(json!({"kind": "builder transition", "case": case}));
+    }
+}
+
+fn bseq_inst<T>(ctx: &mut Ctx, inst: &str, case: &Value) -> Value
+where
+    T: StShape + Clone + PartialEq + Eq + Hash + Ord,
+    <T as PurlShape>::Error: ErrName + From<purl::ParseError>,
+{
+    let ops = case["ops"].as_array().cloned().unwrap_or_default();
+    let Some(t) = T::from_st(&from_cps(&ops[0][1])) else { return Value::Null };
+    let name = from_cps(&ops[0][2]);
+    let r = catch_unwind(AssertUnwindSafe(|| -> Result<GenericPurl<T>, <T as PurlShape>::Error> {
+        let mut b = GenericPurlBuilder::new(t, name);
+        for op in &ops[1..] {
+            b = apply_op(b, op)?;
+        }
+        b.build()
+    }));
+    let (obs, p) = match r {
+        Err(_) => (json!({"panic": true}), None),
+        Ok(Err(e)) => (json!({"ok": false, "err": e.err_name()}), None),
+        Ok(Ok(p)) => (outcome::<T, <T as PurlShape>::Error>(Ok(Ok(p.clone()))), Some(p)),
+    };
+    let exp = &case["out"];
+    ctx.check("C06", "no panic", inst, obs.get("panic").is_none() && obs["str"].get("panic").is_none(), &json!("value or error"), &obs);
+    if exp["ok"] == json!(true) {
+        ctx.check("C09", "call sequence builds what was last set", inst, &obs == exp, exp, &obs);
+    } else {
+        ctx.check("C09", "call sequence is refused", inst, obs["ok"] == json!(false), exp, &obs);
+    }
+    if let Some(p) = &p {
+        universal_noparse(ctx, inst, p, &obs, &[&exp["v"]], "build");
+    }
+    obs
+}
+
+pub fn run_bseq(ctx: &mut Ctx, case: &Value) {
+    if case["sh"] == json!("generic") {
+        let g = bseq_inst::<String>(ctx, "String", case);
+        parse_back::<String>(ctx, "String", &g, case);
+        let o = bseq_inst::<std::borrow::Cow<'static, str>>(ctx, "CowOwned", case);
+        ctx.check_eq("C13", "String and Cow build alike", "CowOwned", &g, &o);
+        #[cfg(feature = "ss")]
+        {
+            let o = bseq_inst::<purl::SmallString>(ctx, "SmallString", case);
+            ctx.check_eq("C13", "String and SmallString build alike", "SmallString", &g, &o);
+        }
+    } else {
+        #[cfg(feature = "pt")]
+        {
+            let o = bseq_inst::<purl::PackageType>(ctx, "Purl", case);
+            parse_back::<purl::PackageType>(ctx, "Purl", &o, case);
+        }
+    }
+    if ctx.samples.len() < 2 {
+        ctx.samples.push(json!({"kind": "builder call sequence", "case": case}));
+    }
+}
+
 #[derive(Default, Clone)]
 pub struct Opts {
     pub serde: bool,
@@ -289,6 +622,9 @@ pub struct Opts {
 pub fn run_case(ctx: &mut Ctx, case: &Value, opts: &Opts) {
     match case["k"].as_str().unwrap_or("") {
         "parse" => run_parse(ctx, case, opts),
+        "build" => run_build(ctx, case),
+        "bop" => run_bop(ctx, case),
+        "bseq" => run_bseq(ctx, case),
         other => {
             eprintln!("unknown case kind {:?} at line {}", other, ctx.line);
             std::process::exit(2);
